@@ -167,6 +167,9 @@ def run(case, schedule, crashes=(), seed=0, store="file"):
                     left.append({"uid": msg.uid, "queue": q.name, "redelivered": bool(msg.redelivered), "task_event": is_task,
                                  "request_sent": any(c == mid or c.startswith(mid + ".") for c in sent)})
         out["leftover"] = left
+        # timers of the engine still armed at the end (heartbeat apart): label or callback name, seconds until due
+        out["timers_left"] = [((t.label or getattr(t.callback, "__qualname__", "?")), round(t.deadline - w.clock.now, 3)) for t in w.broker.live_timers()
+                              if not w.is_heartbeat(t) and t.owner is not None]
         ends = [n for n in w.notifications_for(arn) if n["body"]["detail"]["status"] != "RUNNING"]
         out.update(outcome=H.detail_outcome(w.terminal(arn)), terminals=len(ends), announced=bool(w.notifications_for(arn)),
                    requests={fn: [(q["correlation_id"], q["redelivered"]) for q in wk.requests] for fn, wk in w.workers.items()},
@@ -421,13 +424,24 @@ def orphan_shard(k, seed, tier, nshards=1):
             first = run(case, sched, [c1])
             if first["crashes_left"] or not any(first["in_progress"]):
                 continue
+
+            def timers(got_, cr_):
+                # the drain clause after a restart: once the execution has ended no timer of the engine (a Task time-out, an orphan's retention) stays armed
+                if got_["outcome"] is not None and got_["timers_left"] and not got_["unacked"]:
+                    return [("timer-left-armed-after-restart:%s" % "+".join(sorted(set(c_["mode"] for c_ in cr_))), "%r still armed after the execution ended %s" % (got_["timers_left"][:3], got_["outcome"]["status"]))]
+                return []
+            c0 = {"definition": case["definition"], "input": case["input"], "oracle": case["oracle"], "type": case["type"], "schedule": sched, "crashes": [c1], "dup_replies": case.get("dup_replies", 0)}
+            fails0, nt0 = judge(case, base, first, [c1])
+            camp.case(c0, nontrivial=bool(nt0), classes=["orphaned-reply-" + case["label"], "crash-between", "crashes-1"])
+            for b, d in fails0 + timers(first, [c1]):
+                camp.fail(b, c0, d)
             for n in range(1, first["ops"] + 1):
                 cr = [c1, {"mode": "op", "n": n, "down": 0}]
                 c = {"definition": case["definition"], "input": case["input"], "oracle": case["oracle"], "type": case["type"], "schedule": sched, "crashes": cr, "dup_replies": case.get("dup_replies", 0)}
                 got = run(case, sched, cr)
                 fails, nt = judge(case, base, got, cr)
                 camp.case(c, nontrivial=bool(nt), classes=["orphaned-reply-" + case["label"], "crash-between+op", "crashes-2"] + (["in-progress"] if nt else ["outside-execution"]))
-                for b, d in fails:
+                for b, d in fails + timers(got, cr):
                     camp.fail(b, c, d)
         except Exception as e:
             camp.harness_error("orphaned-reply case crashed the harness: %r %s" % (e, traceback.format_exc()[-600:]))
